@@ -116,6 +116,14 @@ func Generate(rng *rand.Rand) *uni.Universe {
 			return "(,1.1],[1.2,3.1)"
 		case k < 37:
 			return "9.9" // a soft requirement on a version that does not exist
+		case k >= 39 && k < 41:
+			// A union written in descending order. Maven refuses the text
+			// ("ranges overlap"); the repository reads it as the union it
+			// denotes, so the version chosen must lie in one of its members.
+			if v == w {
+				return "(" + v + ",),(," + v + "]"
+			}
+			return uni.Pick(rng, "["+w+",),["+v+"]", "["+w+"],["+v+"]", "("+v+",),(,"+v+"]", "["+w+",9.9],[1.0,"+v+"]")
 		case k < 39:
 			// One point with an excluded end: Maven refuses the text, the
 			// repository reads it as a range that contains nothing. Either
